@@ -221,6 +221,24 @@ c.modifies = lambda S_: [("all",)]
 c.sig("Exception", "poll-timer-setting-is-not-a-number-or-configured-callable-failed")
 
 
+def _start_log(S_, kind):
+    """'a failed ... poll leaves the last good configuration in force and polling continues': whatever the first poll does,
+    the repeating timer has been created for this poller's poll and started when start returns"""
+    if kind != "return":
+        return []
+    timers = S_.calls("RepeatedTimer")
+    starts = S_.calls("Thread.start")
+    t = S_.f(S_.a.self, "timer")
+    return [("timer-created-and-started-whatever-the-first-poll-did", "LOG", And(
+        z3.BoolVal(len(timers) == 1 and len(starts) == 1), t == timers[0].args[0] if timers else z3.BoolVal(False),
+        starts[0].args[0] == S_.f(t, "thread") if starts else z3.BoolVal(False)), ["C12", "C14"])]
+
+
+c.exit_check(_start_log)
+c.props = ["C19", "C14", "C12"]
+c.protects = lambda S_: {"fields": ["timer", "config", "grpc"], "lists": [], "dicts": []}
+
+
 # ---------------------------------------------------------------- GRPCService.start
 GS = "grpc/grpc_service.py"
 
